@@ -640,7 +640,7 @@ func init() {
 		Assumptions: []string{"error-free fragment", "policies keep their order (they are an ordered list)"},
 		NumCases: func(tier string) int {
 			if tier == "thorough" {
-				return 6000
+				return 50000
 			}
 			return 300
 		},
@@ -660,7 +660,7 @@ func init() {
 		Assumptions: []string{"large limits; LIMIT is inconclusive"},
 		NumCases: func(tier string) int {
 			if tier == "thorough" {
-				return 8000
+				return 70000
 			}
 			return 400
 		},
